@@ -220,8 +220,8 @@ pub fn op_strategy(p: &Profile) -> BoxedStrategy<Op> {
 
 pub fn sched_strategy(bytes: usize) -> BoxedStrategy<Sched> {
     let walk = (prop_oneof![Just(0u8), Just(64u8), Just(128u8), Just(192u8), Just(224u8)], vec(any::<u8>(), 0..=bytes), prop::bool::ANY).prop_map(|(stay, bytes, t)| Sched::Walk { stay, bytes, tail: if t { Tail::RoundRobin } else { Tail::Stay } });
-    let pct_s = (vec(any::<u8>(), 0..=10), vec((0u8..10, 0u16..120, 0u8..40), 0..=4)).prop_map(|(prio, changes)| Sched::Pct { prio, changes });
-    let delay = (vec((0u8..10, 0u16..150, any::<u8>()), 0..=5), prop::bool::ANY).prop_map(|(points, rr)| Sched::Delay { points, rr });
+    let pct_s = (vec(any::<u8>(), 0..=10), vec((0u8..10, 0u16..72, 0u8..40), 0..=6)).prop_map(|(prio, changes)| Sched::Pct { prio, changes });
+    let delay = (vec((0u8..10, 0u16..72, any::<u8>()), 0..=6), prop::bool::ANY).prop_map(|(points, rr)| Sched::Delay { points, rr });
     prop_oneof![4 => walk, 3 => pct_s, 3 => delay].boxed()
 }
 
